@@ -25,12 +25,25 @@ import (
 	"sort"
 	"strings"
 	"sync"
+	"sync/atomic"
 	"time"
 
 	vx "github.com/karagenc/socket.io-go/internal/vexplore"
 )
 
 const eventDeadline = 60 * time.Second
+
+// deadlineHits counts waits that ran into the deadline (each is a cap, never a verdict). A tree that silently drops
+// what the cases wait for would make every further case wait a full minute: after three hits the remaining
+// waits of the run are cut to 3 s (their caps are recorded all the same).
+var deadlineHits atomic.Int32
+
+func curDeadline() time.Duration {
+	if deadlineHits.Load() >= 3 {
+		return 3 * time.Second
+	}
+	return eventDeadline
+}
 
 // ---------------------------------------------------------------- violation collection
 
@@ -143,6 +156,7 @@ func (c *ctx) sample(part string, v any) {
 }
 
 func (c *ctx) capHit(s string) {
+	deadlineHits.Add(1)
 	c.mu.Lock()
 	defer c.mu.Unlock()
 	c.caps[s] = true
